@@ -17,7 +17,7 @@ pub fn meta() -> Meta {
     Meta {
         id: "C14",
         level: "exploration",
-        rule: "forged unambiguous tables through the real generic_modes::distance (the function behind `ska distance`, threads=1), output lines compared byte for byte with the model's integers rendered with the same formatting: every multiset of <=3 rows over {A,C,G,-}^n (n=2,3; n=4 with <=2 rows in the quick tier, 3 in thorough), x every threshold 0..n x {default, --allow-ambiguous}; every sample permutation for tables of <=2 rows; n=5..12 with 'j copies of x, rest y' rows; planted-SNP genomes end to end through the CLI; three-sample tables of every row count 1..260 (thorough 1..2100); large three-sample tables of 65537 and 131073 rows (thorough: 65535, 65536, 65537, 100000, 131073, 300000) cycling through variable, gapped and constant rows, in-process and through the CLI with 1 and 4 threads. Also asserted directly: identical samples at 0/0, each unordered pair exactly once in input order, proportion in [0,1]. Non-trivial = (table, threshold, flag) triple; distinct outcomes = distinct expected outputs.".into(),
+        rule: "forged unambiguous tables through the real generic_modes::distance (the function behind `ska distance`, threads=1), output lines compared byte for byte with the model's integers rendered with the same formatting: every multiset of <=3 rows over {A,C,G,-}^n (n=2,3; n=4 with <=2 rows in the quick tier, 3 in thorough), x every threshold 0..n x {default, --allow-ambiguous}; every sample permutation for tables of <=2 rows; n=5..12 with 'j copies of x, rest y' rows; planted-SNP genomes end to end through the CLI; tables with 31, 32, 33, 63, 64, 65, 127, 128, 129 samples; three-sample tables of every row count 1..260 (thorough 1..2100); large three-sample tables of 65537 and 131073 rows (thorough: 65535, 65536, 65537, 100000, 131073, 300000) cycling through variable, gapped and constant rows, in-process and through the CLI with 1 and 4 threads. Also asserted directly: identical samples at 0/0, each unordered pair exactly once in input order, proportion in [0,1]. Non-trivial = (table, threshold, flag) triple; distinct outcomes = distinct expected outputs.".into(),
         assumptions: vec!["frequencies (t-1/2)/n so that ceil(f*n)=t robustly; threshold 0 and 1 both mean 'no frequency filter' in the statement (a stored k-mer is in >=1 sample)".into()],
         exhaustive_when_uncapped: true,
     }
@@ -236,6 +236,33 @@ pub fn run(ctx: &Ctx, rep: &mut Report) {
             }
         }
         rep.completed.push("CLI planted-SNP genomes".into());
+    }
+    // sample counts around 32, 64 and 128 (anything packed one bit or one column per sample): a few rows, every pair
+    if !capped {
+        for n in [31usize, 32, 33, 63, 64, 65, 127, 128, 129] {
+            idx += 1;
+            if !ctx.mine(idx) {
+                continue;
+            }
+            let rowf = |f: &dyn Fn(usize) -> u8| -> Vec<u8> { (0..n).map(f).collect() };
+            let rows = vec![
+                rowf(&|i| b"ACG-"[i % 4]),
+                rowf(&|i| if i % 2 == 0 { b'A' } else { b'C' }),
+                rowf(&|i| if i == n - 1 { b'T' } else { b'G' }),
+                rowf(&|i| if i >= n / 2 { b'-' } else { b'A' }),
+                rowf(&|i| if i == 0 || i == n - 1 { b'C' } else { b'-' }),
+            ];
+            let t = table_of(&rows);
+            for (thr, aa) in [(0usize, false), (n / 2, true), (n, false)] {
+                rep.evaluations += 1;
+                rep.nontrivial += 1;
+                rep.corner("sample_counts_around_powers_of_two");
+                if let Err(e) = check_one(&t, thr, aa) {
+                    rep.violate(format!("{n} samples thr={thr} aa={aa}"), format!("{n} samples, threshold {thr}, allow-ambiguous={aa}: {e}"), json!({"samples": n, "thr": thr, "aa": aa}));
+                }
+            }
+        }
+        rep.completed.push("sample counts around powers of two".into());
     }
     // every number of rows from 1 to 260 (thorough 2100): rows cycle through shared-and-different, shared-and-equal-
     // but-variable (third sample differs), one-sided and gapped patterns, so that row counts at and around 64, 128,
